@@ -102,6 +102,7 @@ const c18SlackMs = 1200 // see design_notes/C18.md: > 5x the largest stop time o
 type c18Shape struct {
 	NConn, NFlush, NPipe, NOut, NLeft, NWin int64
 	HasDir, WorkerLive                      bool
+	LateAbort                               bool // code variant: a session that becomes active after the stop signal is aborted at once (repair caaa160)
 }
 
 // c18Bounds: Go's own evaluation of the wait graph's bounds (independent of the Coq text):
@@ -118,8 +119,14 @@ func c18Bounds(ph int, p c18Params, sh c18Shape) (bs int64, bsOK bool, b int64, 
 		cl, clOK = 0, true
 	case c18SendingLate:
 		cl, clOK = p.TSend, true
+		if sh.LateAbort {
+			cl = 0
+		}
 	case c18ConnectingLate:
 		cl, clOK = sh.NLeft*p.TSend, true
+		if sh.LateAbort {
+			cl = 0
+		}
 	default:
 		cl, clOK = 0, false
 	}
@@ -547,7 +554,7 @@ func c18RunScenario(seed uint64, idx int) (*c18Scenario, c18Params, *c18Result) 
 	time.Sleep(time.Duration(sc.SettleMs+r.Intn(40)) * time.Millisecond)
 	res.SettledMs = time.Since(t0).Milliseconds()
 	// ---- stop ----
-	res.Shape = c18Shape{NConn: 2, NFlush: 4, NPipe: int64(len(apps)), NOut: 1, NLeft: 8, NWin: int64(ep.MemLen), HasDir: true, WorkerLive: true}
+	res.Shape = c18Shape{NConn: 2, NFlush: 4, NPipe: int64(len(apps)), NOut: 1, NLeft: 8, NWin: int64(ep.MemLen), HasDir: true, WorkerLive: true, LateAbort: true}
 	if nrec == 0 {
 		res.Shape.NPipe = 0
 	}
@@ -627,18 +634,18 @@ func c18StartWithOverride(a *e2eAgent, ov base.ChunkConsumerOverrideCreator) err
 
 func c18Z(seed uint64, idx int, sc *c18Scenario, p c18Params, sh c18Shape) []int64 {
 	return []int64{int64(seed), int64(idx), int64(sc.Phase), p.TIn, p.TCh, p.TBs, p.TConn, p.TSend, p.TAck, p.TAckStop, p.TRetry,
-		sh.NConn, sh.NFlush, sh.NPipe, sh.NOut, sh.NLeft, sh.NWin, b2i(sh.HasDir), b2i(sh.WorkerLive)}
+		sh.NConn, sh.NFlush, sh.NPipe, sh.NOut, sh.NLeft, sh.NWin, b2i(sh.HasDir), b2i(sh.WorkerLive), b2i(sh.LateAbort)}
 }
 
 var c18Cache = map[string]*c18Result{}
 var c18Times = map[string][]int64{}
 
 func c18Run(c *Case) (string, []Fail) {
-	if c.Kind != 1 || len(c.Z) < 19 {
+	if c.Kind != 1 || len(c.Z) < 20 {
 		return "badcase", nil
 	}
 	p := c18Params{c.Z[3], c.Z[4], c.Z[5], c.Z[6], c.Z[7], c.Z[8], c.Z[9], c.Z[10]}
-	sh := c18Shape{c.Z[11], c.Z[12], c.Z[13], c.Z[14], c.Z[15], c.Z[16], c.Z[17] != 0, c.Z[18] != 0}
+	sh := c18Shape{c.Z[11], c.Z[12], c.Z[13], c.Z[14], c.Z[15], c.Z[16], c.Z[17] != 0, c.Z[18] != 0, c.Z[19] != 0}
 	out := c18OutText(c18Bounds(int(c.Z[2]), p, sh))
 	if c.Z[0] < 0 {
 		// a pure bound case (no scenario run): parameter sweep of the correspondence
@@ -646,6 +653,10 @@ func c18Run(c *Case) (string, []Fail) {
 	}
 	if r, ok := c18Cache[c.Line()]; ok {
 		return out, r.Fails
+	}
+	if c.Z[1] >= 1000 {
+		_, res := c18RunLateScenario(uint64(c.Z[0]), int(c.Z[1]))
+		return out, res.Fails
 	}
 	_, _, res := c18RunScenario(uint64(c.Z[0]), int(c.Z[1]))
 	return out, res.Fails
@@ -675,6 +686,26 @@ func c18Gen(g *Gen) {
 			}
 		}
 	}
+	// ---- the late session (see c18_late.go) ----
+	if os.Getenv("C18_ONLY") == "" || os.Getenv("C18_ONLY") == "late" {
+		for round := 0; round < rounds; round++ {
+			idx := 1000 + round
+			p, res := c18RunLateScenario(g.Seed, idx)
+			sc := &c18Scenario{Name: "late-session", Phase: c18ConnectingLate}
+			z := c18Z(g.Seed, idx, sc, p, res.Shape)
+			cs := &Case{Kind: 1, Z: z}
+			c18Cache[cs.Line()] = res
+			g.Case(1, nil, z)
+			g.Count("scenario-late-session")
+			if res.Note != "" {
+				g.Count(res.Note)
+			}
+			c18Times[sc.Name] = append(c18Times[sc.Name], res.ElapsedMs)
+			if os.Getenv("C18_VERBOSE") != "" {
+				fmt.Fprintf(os.Stderr, "c18 %-34s elapsed %5d ms fails %d %s\n", sc.Name, res.ElapsedMs, len(res.Fails), res.Note)
+			}
+		}
+	}
 	for name, ts := range c18Times {
 		var max int64
 		for _, t := range ts {
@@ -691,7 +722,7 @@ func c18Gen(g *Gen) {
 		vals := []int64{0, 1, 5, 60, 120, 700, 1500, 90000}
 		pick := func() int64 { return vals[r.Intn(len(vals))] }
 		p := c18Params{pick(), pick(), pick(), pick(), pick(), pick(), pick(), pick()}
-		sh := c18Shape{int64(r.Intn(4)), int64(r.Intn(5)), int64(r.Intn(4)), int64(r.Intn(3)), int64(r.Intn(6)), int64(r.Intn(9)), r.Bool(), r.Bool()}
+		sh := c18Shape{int64(r.Intn(4)), int64(r.Intn(5)), int64(r.Intn(4)), int64(r.Intn(3)), int64(r.Intn(6)), int64(r.Intn(9)), r.Bool(), r.Bool(), r.Bool()}
 		ph := r.Intn(9)
 		sc := &c18Scenario{Phase: ph}
 		z := c18Z(0, i, sc, p, sh)
